@@ -1087,7 +1087,8 @@ def check(pid, tier, seed):
                                  "config": label})
             n_stream = 0
             tag = (label + ":" if multi else "") + sname
-            for req, impl, mo in R.iter_results(shards):
+            window = collections.deque(maxlen=48)      # the requests answered just before, by the same process
+            for req, impl, mo in R.iter_results(shards, window):
                 evaluations += 1
                 n_stream += 1
                 op = req.split(" ", 1)[0]
@@ -1111,7 +1112,7 @@ def check(pid, tier, seed):
                             print("KNOWN-FINDING: property=%s %s" % (pid, k.get("line", k.get("what", R.show_req(req)))))
                         msg = None
                 if msg and len([x for x in oracle_failures if x]) < 50:
-                    oracle_failures.append((sname, req, impl, mo, msg, label))
+                    oracle_failures.append((sname, req, impl, mo, msg, label, list(window)))
                 elif msg:
                     oracle_failures.append(None)
             for sh_ in shards:
@@ -1135,7 +1136,7 @@ def check(pid, tier, seed):
     # (a) the oracle found failing inputs on the implementation: concrete violations
     real_oracle = [x for x in oracle_failures if x]
     budget = 5
-    for sname, req, impl, mo, msg, label in real_oracle:
+    for sname, req, impl, mo, msg, label, before in real_oracle:
         if budget == 0:
             break
         harness = harnesses[label]
@@ -1158,9 +1159,32 @@ def check(pid, tier, seed):
         i2 = requery([small], harness)[0]
         m2 = requery([small], R.DRIVER)[0]
         mm, sp = split_model(m2)
-        msg2 = cfg.oracle(dict(c0), small.split(" ", 1)[0], small, i2, mm, sp) or msg
-        violations.append({"kind": "oracle", "stream": sname, "config": label, "request": small, "shown": R.show_req(small), "impl": i2,
-                           "model_and_spec": m2, "why": msg2, "original_request": req, "seed": seed, "tier": tier})
+        msg2 = cfg.oracle(dict(c0), small.split(" ", 1)[0], small, i2, mm, sp)
+        v = {"kind": "oracle", "stream": sname, "config": label, "request": small, "shown": R.show_req(small), "impl": i2,
+             "model_and_spec": m2, "why": msg2 or msg, "original_request": req, "seed": seed, "tier": tier}
+        if not msg2 and stateless and before and sname not in ("corpus", "macros"):
+            # the request alone, answered by a fresh process, no longer fails: the answer depended on what the same process
+            # had been asked before.  Find the shortest suffix of the preceding requests that brings the failure back.
+            for k in (1, 2, 4, 8, 16, 32, 48):
+                pre = before[-k:]
+                ans = requery(pre + [req], harness)
+                last = ans[-1] if ans else None
+                if last is not None and cfg.oracle(dict(c0), req.split(" ", 1)[0], req, last, *split_model(mo)):
+                    # drop preceding requests that are not needed
+                    keep = list(pre)
+                    j = 0
+                    while j < len(keep) and len(keep) > 1:
+                        trial = keep[:j] + keep[j + 1:]
+                        a2 = requery(trial + [req], harness)
+                        if a2 and a2[-1] is not None and cfg.oracle(dict(c0), req.split(" ", 1)[0], req, a2[-1], *split_model(mo)):
+                            keep = trial
+                        else:
+                            j += 1
+                    v.update({"kind": "oracle-history", "request": req, "shown": R.show_req(req), "impl": last, "model_and_spec": mo,
+                              "why": msg + " (only after the preceding requests, answered by the same process)",
+                              "preceding_requests": keep, "preceding_shown": [R.show_req(x) for x in keep]})
+                    break
+        violations.append(v)
     for pr in problems:
         if pr["side"] == "impl":
             violations.append({"kind": "crash-or-hang", "request": pr["request"], "shown": pr["shown"], "why": pr["what"],
@@ -1247,8 +1271,12 @@ def replay(path):
         if not req:
             print(json.dumps(it, indent=1))
             continue
-        i = R.answer_lines(harness, [req])
+        pre = it.get("preceding_requests") or []
+        i = R.answer_lines(harness, pre + [req])
+        i = i[-1:] if i else i
         m = R.answer_lines(R.DRIVER, [req])
+        for x in pre:
+            print("first:  ", R.show_req(x))
         print("request:", R.show_req(req))
         print("impl:   ", i[0] if i else None)
         print("model:  ", m[0] if m else None)
